@@ -730,6 +730,11 @@ func (x *xl) call(c *ast.CallExpr) ([]string, string, error) {
 	}
 	switch f := c.Fun.(type) {
 	case *ast.Ident:
+		if x.w.dom {
+			if b, s, ok, err := x.funcValueCall(c, f); ok || err != nil {
+				return b, s, err
+			}
+		}
 		if bi, ok := info.Uses[f].(*types.Builtin); ok {
 			switch bi.Name() {
 			case "len":
@@ -861,6 +866,11 @@ func (x *xl) call(c *ast.CallExpr) ([]string, string, error) {
 				return nil, "", err
 			}
 			return bs, "(some ())", nil
+		}
+		if x.w.dom {
+			if b, s, ok, err := x.domStdlib(c, key); ok || err != nil {
+				return b, s, err
+			}
 		}
 		prims := map[string]struct {
 			lean  string
